@@ -144,12 +144,32 @@ Theorem C09_delete_plain :
 Proof. exact delete_plain_final. Qed.
 Print Assumptions C09_delete_plain.
 
-(* a target that is not stored: not found *)
+(* a target that is not stored: not found; the storage is untouched, but (as in Go's delete(),
+   which runs before storage.Delete fails) the references to x and its graph node are gone *)
 Theorem C09_delete_absent :
   forall succ subject manifest st x ord c,
-  ~ In x (blobs st) -> snd (delete succ subject manifest c ord st x) = ENotFound.
-Proof. exact delete_absent. Qed.
+  ~ In x (blobs st) ->
+  snd (delete succ subject manifest c ord st x) = ENotFound /\
+  blobs (fst (delete succ subject manifest c ord st x)) = blobs st /\
+  gnodes (fst (delete succ subject manifest c ord st x)) = removeb x (gnodes st) /\
+  idx (fst (delete succ subject manifest c ord st x)) = filter (fun e => negb (Nat.eqb (snd e) x)) (idx st).
+Proof. exact delete_absent_final. Qed.
 Print Assumptions C09_delete_absent.
+
+(* Every state the repaired code can reach with ANY iteration orders of Delete and GC
+   ([Hist]; [any] = true also allows reopening the store at arbitrary points) is well-formed
+   (the hypothesis of C09_delete_exact) and free of stale tag-set entries; unless the store
+   is reopened at an arbitrary point every stored blob is a graph node, so [Gone] and
+   C09_delete_exact speak about the storage.  After an arbitrary reopen blobs that
+   index.json does not reach are unknown to the graph: Delete ignores them (they wait for
+   GC) -- outside the property's quantifier, run by the correspondence, not judged. *)
+Theorem C09_histories :
+  forall succ subject manifest, acyclic succ -> subject_listed succ subject ->
+  forall kl any st, Hist succ subject manifest kl any st ->
+  wf st /\ (forall n, is_tagged st n = true <-> exists t, In (RTag t, n) (idx st)) /\
+  (any = false -> forall y, In y (blobs st) -> In y (gnodes st)).
+Proof. exact hist_final. Qed.
+Print Assumptions C09_histories.
 
 (* the well-formedness hypothesis of C09_delete_exact holds after every history *)
 Theorem C09_store_wf :
